@@ -1,122 +1,208 @@
 """C20 - token bucket bounds the request rate (DESIGN.md section 4, C20).
 
-The real TokenBucketLimiter under a substituted time source. Every arrival sequence of <= 5 (quick) / 6 (thorough)
-requests with gaps from {0, 1/4, 1/2, 1, 2, 5, 20} periods, for tokens-per-period {0.5, 1, 2, 3}, period {1, 2, 5},
-initial tokens {0, 1, 3, 5}. Oracles: waits >= 0; the window bound over every pair of requests; every wait equals the
-wait of a textbook token bucket over exact rationals (i.e. the k-th request of a burst is delayed by max(0, k - a) / rate).
+The real TokenBucketLimiter under a substituted time source (mc.vtime.VirtualTime: every clock function of the `time`
+module reads one virtual clock). Families, each enumerated exhaustively within its bounds:
+
+  grid        every arrival sequence of <= 5 (quick) / 6 (thorough) requests with gaps from {0, 1/4, 1/2, 1, 2, 5, 20}
+              periods, tokens-per-period {0.5, 1, 2, 3}, period {1, 2, 5}, initial tokens {0, 1, 3, 5};
+  offgrid     every arrival sequence of <= 4 / 5 requests with gaps OFF the quarter-period grid ({0, 1/3, 1/7, 1/4000,
+              1e-5, 3/2, 3} periods), fractional rates {0.3, 1.5, 10, 20}, fractional periods {0.1, 1, 7}, fractional
+              initial tokens {0, 0.5, 2.5}, a non-integer epoch;
+  long        periodic arrival patterns (every pattern of 1 or 2 gaps from 8 gap sizes given in token slots) repeated up to
+              3000 / 20000 requests, so that drift accumulates;
+  concurrent  callers really suspended on the virtual loop: n simultaneous callers, a second burst after a gap; the caller
+              is limiter.wait() itself, or a request made through the real Binance / Bitstamp REST client (built with
+              tb=limiter and a stub HTTP session) - the send instant is the instant the request reaches the session;
+  cancel      callers queued in wait() / in the REST clients; the chooser picks WHEN (one of three instants) a cancellation
+              round happens, WHICH of the pending callers are cancelled (every subset), and how many new callers arrive at
+              that instant and one and a quarter slots later.
+
+Oracles: waits >= 0; every wait equals the wait of a textbook token bucket over exact rationals (i.e. the k-th request of
+a burst is delayed by max(0, k - a) / rate); the window bound capacity + rate x L + 1 over every window of the requests
+that were actually sent.
 """
+import asyncio
 import itertools
+import math
 from fractions import Fraction as F
 
 from basana.core import token_bucket
 
+from mc import chooser
 from mc.framework import Result, h64
+from mc.vloop import VLoop
+from mc.vtime import VirtualTime
 
 PROPERTY = "C20"
-RULE = ("case = (tokens per period, period, initial tokens, sequence of gaps between requests); all sequences up to the "
-        "length bound are executed on the real limiter with a substituted clock. Distinct = distinct cases; non-trivial = "
-        "at least one request had to wait.")
+RULE = ("case = (tokens per period, period, initial tokens, sequence of gaps between requests) for the grid / offgrid / long "
+        "families, (caller kind, configuration, burst sizes, gap) for concurrent callers, (caller kind, configuration, "
+        "number of queued callers, instant of the cancellation round, subset cancelled, new arrivals) for the cancel "
+        "family; all cases within the bounds are executed on the real limiter (and the real REST clients) with a "
+        "substituted clock. Distinct = distinct cases; non-trivial = at least one request had to wait.")
 ASSUMPTIONS = [
-    "time.time of basana.core.token_bucket is replaced by a settable clock; floating point waits are compared with the "
-    "exact-rational reference within 1e-9 (relative and absolute)",
+    "the `time` attribute of basana.core.token_bucket (and of the Binance REST client module) is replaced by a proxy of the "
+    "time module whose time / time_ns / monotonic / perf_counter all read one virtual clock; floating point waits are "
+    "compared with the exact-rational reference within 1e-9 (relative and absolute)",
     "for initial tokens > tokens per period both readings of 'available' (capped at once / capped on the first refill) are "
     "accepted, as the statement allows",
+    "REST clients: stub HTTP session answering every request with an empty JSON object; a request counts as sent at the "
+    "virtual instant at which the client hands it to the session; only the window bound (and completion of every call) is "
+    "demanded of the clients, not exact send instants",
+    "cancelled callers send nothing; under cancellation only the window bound over the requests that were sent is demanded "
+    "(the statement does not say what happens to the token of a caller that gave up)",
 ]
-BOUNDS = {"quick": dict(max_requests=5), "thorough": dict(max_requests=6)}
-EXPLANATION = "bounded exhaustive enumeration of arrival sequences against the real limiter; every case is an implementation run"
+BOUNDS = {"quick": dict(max_requests=5, offgrid_requests=4, long_requests=3000, cancel_queued=(3, 5)),
+          "thorough": dict(max_requests=6, offgrid_requests=5, long_requests=20000, cancel_queued=(3, 5, 6))}
+EXPLANATION = ("bounded exhaustive enumeration of arrival sequences, periodic long runs, concurrent callers and cancellation "
+               "choices against the real limiter and the real REST clients; every case is an implementation run")
 GAPS = (F(0), F(1, 4), F(1, 2), F(1), F(2), F(5), F(20))
 TPPS = (0.5, 1, 2, 3)
 PERIODS = (1, 2, 5)
 INITS = (0, 1, 3, 5)
 T0 = 1_700_000_000.0
 
+# off the quarter-period grid
+OFF_GAPS = (F(0), F(1, 3), F(1, 7), F(1, 4000), F(1, 100000), F(3, 2), F(3))
+OFF_TPPS = (0.3, 1.5, 10, 20)
+OFF_PERIODS = (0.1, 1, 7)
+OFF_INITS = (0, 0.5, 2.5)
+T0_OFF = 1_700_000_000.37
 
-class _Clock:
-    def __init__(self):
-        self.now = T0
+# long periodic runs: gaps in token slots (1 slot = 1 / rate seconds)
+LONG_GAPS = (F(0), F(1, 4000), F(1, 7), F(1, 3), F(999, 1000), F(1), F(1001, 1000), F(3))
+LONG_CONFIGS = ((3, 1, 0), (0.3, 0.1, 0.5), (1.5, 7, 2.5), (20, 60, 5), (1, 1, 0))
 
-    def time(self):
-        return self.now
+KINDS = ("wait", "binance", "bitstamp")
+CLIENT_CONFIGS = [(tpp, per, init) for tpp in (0.5, 1, 3) for per in (1, 2) for init in (0, 3)]
+CANCEL_INSTANTS = (F(1, 2), F(7, 4), F(13, 4))  # in slots after the burst
+CANCEL_ARRIVALS_1 = (0, 2, 3)
+CANCEL_ARRIVALS_2 = (0, 2)
 
 
 def scenarios(tier, seed):
     out = [(tpp, per, init, g0) for tpp in TPPS for per in PERIODS for init in INITS for g0 in range(len(GAPS))]
-    out += [("concurrent", tpp, per, init) for tpp in TPPS for per in PERIODS for init in INITS]
+    out += [("offgrid", tpp, per, init) for tpp in OFF_TPPS for per in OFF_PERIODS for init in OFF_INITS]
+    out += [("long", c, g0) for c in range(len(LONG_CONFIGS)) for g0 in range(len(LONG_GAPS))]
+    out += [("concurrent", "wait", tpp, per, init) for tpp in TPPS for per in PERIODS for init in INITS]
+    out += [("concurrent", kind, tpp, per, init) for kind in KINDS[1:] for (tpp, per, init) in CLIENT_CONFIGS]
+    out += [("cancel", "wait", tpp, per, init) for tpp in TPPS for per in PERIODS for init in INITS]
+    out += [("cancel", kind, tpp, per, init) for kind in KINDS[1:] for (tpp, per, init) in CLIENT_CONFIGS]
     return out
 
 
-def run_concurrent(sc, res):
-    """Callers that really wait: n tasks suspended in limiter.wait() at the same time on the virtual loop (two bursts, the
-    second after a gap). Their send times must be those of the exact-rational bucket and satisfy the window bound."""
-    import asyncio
-    from mc.vloop import VLoop
-    _, tpp, per, init = sc
-    rate = F(tpp) / per
-    capacity = max(F(tpp), F(init))
-    for n1 in (1, 2, 3, 5, 8, 12):
-        for n2, gap in ((0, 0), (3, F(1, 2)), (4, F(2))):
-            loop = VLoop()
-            clock = type("C", (), {"time": staticmethod(lambda: T0 + loop.time())})
-            saved = token_bucket.time
-            token_bucket.time = clock
-            sends = []
-            try:
-                tb = token_bucket.TokenBucketLimiter(tpp, per, init)
+# ---- time seam ------------------------------------------------------------------------------------------------------
+class _Patched:
+    """Installs a VirtualTime proxy as the `time` attribute of every module that may read the clock (looked up defensively:
+    a module that stops importing time is simply left alone)."""
 
-                async def caller(tag):
-                    await tb.wait()
-                    sends.append((loop.time(), tag))
+    def __init__(self, now_fn, advance_fn=None, clients=False):
+        self.vt = VirtualTime(now_fn, advance_fn)
+        self.mods = [token_bucket]
+        if clients:
+            from basana.external.binance.client import base as bbase
+            from basana.external.bitstamp import client as sclient
+            self.mods += [bbase, sclient]
+        self.saved = []
 
-                async def main():
-                    tasks = [asyncio.ensure_future(caller(("a", i))) for i in range(n1)]
-                    if n2:
-                        await asyncio.sleep(float(gap * per))
-                        tasks += [asyncio.ensure_future(caller(("b", i))) for i in range(n2)]
-                    await asyncio.gather(*tasks)
-                loop.run(main(), horizon=10 ** 6)
-            finally:
-                loop.shutdown()
-                token_bucket.time = saved
-            # reference: requests arrive at 0 (n1 of them) and at gap*per (n2), in that order
-            arrivals = [F(T0)] * n1 + [F(T0) + gap * per] * n2
-            refs = [reference(tpp, per, init, arrivals, F(tpp)), reference(tpp, per, init, arrivals, capacity)]
-            got = sorted(F(t) for t, _ in sends)
-            bad = []
+    def __enter__(self):
+        for m in self.mods:
+            if getattr(m, "time", None) is not None:
+                self.saved.append((m, m.time))
+                m.time = self.vt
+        return self
 
-            def expect(ws):
-                return sorted((a - F(T0)) + w for a, w in zip(arrivals, ws))
-            if not any(all(abs(g - x) <= F(1, 10 ** 6) * max(1, x) for g, x in zip(got, expect(r))) for r in refs):
-                bad.append(("concurrent-send-times", f"send times {[float(g) for g in got]}, exact bucket gives "
-                            f"{[float(x) for x in expect(refs[0])]}"))
-            for a in range(len(got)):
-                for b in range(a, len(got)):
-                    if (b - a + 1) > capacity + rate * (got[b] - got[a]) + 1 + F(1, 10 ** 6):
-                        bad.append(("window-bound", f"{b - a + 1} requests sent within {float(got[b] - got[a])}s by concurrent "
-                                    f"waiters; capacity {float(capacity)}, rate {float(rate)}/s"))
-                        break
-                else:
-                    continue
-                break
-            res.executions += 1
-            res.transitions += n1 + n2
-            res.validated += 1
-            key = h64((sc, n1, n2, str(gap)))
-            res.states.add(key)
-            res.nontrivial.add(key)
-            res.outcomes["concurrent"] += 1
-            case = dict(kind="concurrent", tokens_per_period=tpp, period=per, initial=init, burst=n1, second_burst=n2,
-                        gap_in_periods=str(gap))
-            for clause, detail in bad:
-                res.violation(f"{PROPERTY}:{clause}:wait", f"{detail}; {case}", case, size=n1 + n2)
-    res.samples.append(dict(kind="concurrent", tokens_per_period=tpp, period=per, initial=init))
-    return res
+    def __exit__(self, *a):
+        for m, t in self.saved:
+            m.time = t
 
 
-def reference(tpp, per, init, times, cap):
+class _Clock:
+    def __init__(self, t0):
+        self.now = t0
+
+
+# ---- stub HTTP session ------------------------------------------------------------------------------------------------
+class _StubResp:
+    headers = {"Content-Type": "application/json"}
+    ok = True
+    status = 200
+    reason = "OK"
+
+    async def json(self):
+        return {}
+
+    async def text(self):
+        return "{}"
+
+
+class _StubCtx:
+    async def __aenter__(self):
+        await asyncio.sleep(0)
+        return _StubResp()
+
+    async def __aexit__(self, *a):
+        return False
+
+
+class StubSession:
+    """Records the virtual instant at which each request is handed to the session."""
+
+    def __init__(self, loop, sends):
+        self.loop, self.sends = loop, sends
+
+    def _req(self, method, url, **kw):
+        self.sends.append((self.loop.time(), f"{method} {url}"))
+        return _StubCtx()
+
+    def get(self, url, **kw):
+        return self._req("GET", url, **kw)
+
+    def post(self, url, **kw):
+        return self._req("POST", url, **kw)
+
+    def put(self, url, **kw):
+        return self._req("PUT", url, **kw)
+
+    def delete(self, url, **kw):
+        return self._req("DELETE", url, **kw)
+
+
+def make_caller(kind, tb, loop, sends, failures):
+    """Returns an async function caller(i) that makes one request and records when it was sent."""
+    if kind == "wait":
+        async def caller(i):
+            await tb.wait()
+            sends.append((loop.time(), i))
+        return caller
+    sess = StubSession(loop, sends)
+    if kind == "binance":
+        from basana.external.binance import client as bcli
+        cli = bcli.APIClient("key", "secret", session=sess, tb=tb)
+        # public, signed, key-only and signed DELETE requests in turn: the throttle is not a matter of the request type
+        methods = [lambda: cli.get_exchange_info(), lambda: cli.spot_account.get_account_information(),
+                   lambda: cli.spot_account.create_listen_key(), lambda: cli.spot_account.cancel_order("BTCUSDT", order_id=1)]
+    else:
+        from basana.external.bitstamp import client as scli
+        cli = scli.APIClient("key", "secret", session=sess, tb=tb)
+        methods = [lambda: cli.get_ticker("btcusd"), lambda: cli.get_account_balances(),
+                   lambda: cli.get_order_book("btcusd"), lambda: cli.get_open_orders()]
+
+    async def caller(i):
+        try:
+            await methods[i % len(methods)]()
+        except asyncio.CancelledError:
+            raise
+        except Exception as e:  # noqa - the stub answers every request: a failing call is the client's doing
+            failures.append(f"{type(e).__name__}: {e}"[:100])
+    return caller
+
+
+# ---- oracles ------------------------------------------------------------------------------------------------------------
+def reference(tpp, per, init, times, cap, t0=T0):
     """Textbook bucket over exact rationals: refill at rate up to cap, take one token, convert debt into a wait."""
-    rate = F(tpp) / per
+    rate = F(tpp) / F(per)
     tokens = min(F(init), cap)
-    last = F(T0)
+    last = F(t0)
     waits = []
     for t in times:
         tokens = min(cap, tokens + (t - last) * rate)
@@ -126,84 +212,308 @@ def reference(tpp, per, init, times, cap):
     return waits
 
 
-def run_case(tpp, per, init, gaps):
-    clock = _Clock()
-    saved = token_bucket.time
-    token_bucket.time = clock
-    try:
+def window_bound(sends, capacity, rate, tol):
+    """sends sorted ascending. Returns (count, length) of a violating window or None. count <= capacity + rate x L + 1 for
+    every pair a <= b is (b - rate s_b) - (a - rate s_a) <= capacity: one pass with a running minimum."""
+    best = None
+    for b, s in enumerate(sends):
+        f = b - rate * s
+        if best is None or f < best[0]:
+            best = (f, b)
+        if f - best[0] > capacity + tol:
+            a = best[1]
+            return b - a + 1, sends[b] - sends[a]
+    return None
+
+
+def close(ws, rs):
+    return all(abs(F(w) - r) <= F(1, 10 ** 9) * max(1, r) for w, r in zip(ws, rs))
+
+
+# ---- concurrent callers (no cancellation) ---------------------------------------------------------------------------
+def run_concurrent_case(kind, tpp, per, init, n1, n2, gap):
+    rate = F(tpp) / per
+    capacity = max(F(tpp), F(init))
+    loop = VLoop()
+    sends, failures = [], []
+
+    def advance(d):
+        loop._vtime += d
+    with _Patched(lambda: T0 + loop.time(), advance, clients=kind != "wait"):
+        try:
+            async def main():
+                tb = token_bucket.TokenBucketLimiter(tpp, per, init)
+                caller = make_caller(kind, tb, loop, sends, failures)
+                tasks = [asyncio.ensure_future(caller(i)) for i in range(n1)]
+                if n2:
+                    await asyncio.sleep(float(gap * per))
+                    tasks += [asyncio.ensure_future(caller(n1 + i)) for i in range(n2)]
+                await asyncio.gather(*tasks)
+            out = "ok"
+            try:
+                t = loop.run(main(), horizon=10 ** 6)
+                if t.exception() is not None:
+                    out = f"raised {t.exception()!r}"[:120]
+            except Exception as e:  # noqa - Deadlock / Horizon / StepCap
+                out = type(e).__name__
+        finally:
+            loop.shutdown()
+    # reference: requests arrive at 0 (n1 of them) and at gap*per (n2), in that order
+    arrivals = [F(T0)] * n1 + [F(T0) + gap * per] * n2
+    refs = [reference(tpp, per, init, arrivals, F(tpp)), reference(tpp, per, init, arrivals, capacity)]
+    got = sorted(F(t) for t, _ in sends)
+    bad = []
+    if out != "ok":
+        bad.append(("callers-run", out))
+    if failures:
+        bad.append(("client-call-failed", failures[0]))
+    if len(got) != n1 + n2 and not bad:
+        bad.append(("requests-not-sent", f"{len(got)} of {n1 + n2} requests reached the session"))
+
+    def expect(ws):
+        return sorted((a - F(T0)) + w for a, w in zip(arrivals, ws))
+    if kind == "wait" and not any(len(got) == len(r) and
+                                  all(abs(g - x) <= F(1, 10 ** 6) * max(1, x) for g, x in zip(got, expect(r))) for r in refs):
+        bad.append(("concurrent-send-times", f"send times {[float(g) for g in got]}, exact bucket gives "
+                    f"{[float(x) for x in expect(refs[0])]}"))
+    w = window_bound(got, capacity, rate, F(1, 10 ** 6))
+    if w:
+        bad.append(("window-bound", f"{w[0]} requests sent within {float(w[1])}s by concurrent callers; capacity "
+                    f"{float(capacity)}, rate {float(rate)}/s"))
+    return bad, got
+
+
+def run_concurrent(sc, res):
+    """Callers that really wait: n tasks suspended in limiter.wait() (or inside a REST client's request) at the same time on
+    the virtual loop (two bursts, the second after a gap). Send times must satisfy the window bound and, for wait() itself,
+    be those of the exact-rational bucket."""
+    _, kind, tpp, per, init = sc
+    for n1 in (1, 2, 3, 5, 8, 12):
+        for n2, gap in ((0, F(0)), (3, F(1, 2)), (4, F(2))):
+            bad, got = run_concurrent_case(kind, tpp, per, init, n1, n2, gap)
+            res.executions += 1
+            res.transitions += n1 + n2
+            res.validated += 1
+            key = h64((sc, n1, n2, str(gap)))
+            res.states.add(key)
+            res.nontrivial.add(key)
+            res.outcomes[f"concurrent:{kind}"] += 1
+            case = dict(kind="concurrent", caller=kind, tokens_per_period=tpp, period=per, initial=init, burst=n1,
+                        second_burst=n2, gap_in_periods=str(gap))
+            for clause, detail in bad:
+                res.violation(f"{PROPERTY}:{clause}:{kind}", f"{detail}; {case}", case, size=n1 + n2)
+    res.samples.append(dict(kind="concurrent", caller=kind, tokens_per_period=tpp, period=per, initial=init))
+    return res
+
+
+# ---- cancellation ---------------------------------------------------------------------------------------------------
+def run_cancel_once(kind, tpp, per, init, queued, ch):
+    """One execution: floor(capacity) + queued callers at t=0; at ONE of three instants (chooser) every pending caller is
+    either cancelled or not (chooser, every subset), new callers arrive then and 1.25 slots later (chooser)."""
+    rate = F(tpp) / per
+    slot = float(1 / rate)
+    capacity = max(F(tpp), F(init))
+    n1 = int(math.floor(capacity)) + queued
+    loop = VLoop()
+    sends, failures = [], []
+    info = dict(cancelled=0, arrivals=0)
+
+    def advance(d):
+        loop._vtime += d
+    with _Patched(lambda: T0 + loop.time(), advance, clients=kind != "wait"):
+        try:
+            async def main():
+                tb = token_bucket.TokenBucketLimiter(tpp, per, init)
+                caller = make_caller(kind, tb, loop, sends, failures)
+                tasks = [asyncio.ensure_future(caller(i)) for i in range(n1)]
+                when = CANCEL_INSTANTS[ch.choose(len(CANCEL_INSTANTS), "when")]
+                await asyncio.sleep(float(when) * slot)
+                for t in list(tasks):
+                    if not t.done() and ch.choose(2, "cancel"):
+                        t.cancel()
+                        info["cancelled"] += 1
+                for extra, alphabet in ((0, CANCEL_ARRIVALS_1), (1.25, CANCEL_ARRIVALS_2)):
+                    if extra:
+                        await asyncio.sleep(extra * slot)
+                    k = alphabet[ch.choose(len(alphabet), "arrivals")]
+                    info["arrivals"] += k
+                    tasks += [asyncio.ensure_future(caller(len(tasks) + i)) for i in range(k)]
+                await asyncio.gather(*tasks, return_exceptions=True)
+            out = "ok"
+            try:
+                t = loop.run(main(), horizon=10 ** 6)
+                if t.exception() is not None:
+                    out = f"raised {t.exception()!r}"[:120]
+            except Exception as e:  # noqa
+                out = type(e).__name__
+        finally:
+            loop.shutdown()
+    got = sorted(F(t) for t, _ in sends)
+    bad = []
+    if out != "ok":
+        bad.append(("callers-run", out))
+    if failures:
+        bad.append(("client-call-failed", failures[0]))
+    w = window_bound(got, capacity, rate, F(1, 10 ** 6))
+    if w:
+        bad.append(("window-bound", f"{w[0]} requests sent within {float(w[1])}s although every request that was sent waited "
+                    f"what the limiter asked ({info['cancelled']} queued callers were cancelled, {info['arrivals']} arrived "
+                    f"later); capacity {float(capacity)}, rate {float(rate)}/s"))
+    return bad, got, info
+
+
+def run_cancel(sc, tier, res):
+    _, kind, tpp, per, init = sc
+    for queued in BOUNDS[tier]["cancel_queued"]:
+        def run_one(ch, queued=queued):
+            return run_cancel_once(kind, tpp, per, init, queued, ch)
+        for choices, trace, (bad, got, info) in chooser.explore(run_one, None):
+            res.executions += 1
+            res.transitions += len(trace)
+            res.validated += 1
+            key = h64((sc, queued, tuple(choices)))
+            res.states.add(key)
+            if info["cancelled"]:
+                res.nontrivial.add(key)
+            res.outcomes[f"cancel:{kind}:{'some' if info['cancelled'] else 'none'} cancelled"] += 1
+            case = dict(kind="cancel", caller=kind, tokens_per_period=tpp, period=per, initial=init, queued=queued,
+                        choices=list(choices))
+            if not res.samples and info["cancelled"] >= 2 and info["arrivals"]:
+                res.samples.append(case)
+            for clause, detail in bad:
+                res.violation(f"{PROPERTY}:{clause}:cancel-{kind}", f"{detail}; {case}", case,
+                              size=queued + info["cancelled"] + info["arrivals"])
+
+
+# ---- sequences of consume() -------------------------------------------------------------------------------------------
+def run_case(tpp, per, init, gaps, t0=T0, full_window=True):
+    """gaps: in periods. Runs the sequence on the real limiter; returns (problems, waits)."""
+    clock = _Clock(t0)
+
+    def advance(d):
+        clock.now += d
+    with _Patched(lambda: clock.now, advance):
         tb = token_bucket.TokenBucketLimiter(tpp, per, init)
         times = []
         waits = []
-        t = F(T0)
+        t = F(t0)
+        fper = F(per)
         for g in gaps:
-            t += g * per
+            t += g * fper
             clock.now = float(t)
             times.append(F(clock.now))
             waits.append(tb.consume())
-    finally:
-        token_bucket.time = saved
+    return judge(tpp, per, init, times, waits, t0), waits
+
+
+def judge(tpp, per, init, times, waits, t0):
     bad = []
-    rate = F(tpp) / per
+    rate = F(tpp) / F(per)
     capacity = max(F(tpp), F(init))
     if any(w < 0 for w in waits):
-        bad.append(("negative-wait", f"waits {waits}"))
-    sends = [ti + F(w) for ti, w in zip(times, waits)]
-    n = len(sends)
-    order = sorted(range(n), key=lambda i: sends[i])
-    for a in range(n):
-        for b in range(a, n):
-            i, j = order[a], order[b]
-            count = b - a + 1
-            # tolerance: one part in 1e9 of a token
-            if count > capacity + rate * (sends[j] - sends[i]) + 1 + F(1, 10 ** 9):
-                bad.append(("window-bound", f"{count} requests sent within {float(sends[j] - sends[i])}s; capacity "
-                            f"{float(capacity)}, rate {float(rate)}/s"))
-                break
-        else:
-            continue
-        break
-    refs = [reference(tpp, per, init, times, F(tpp)), reference(tpp, per, init, times, capacity)]
-
-    def close(ws, rs):
-        return all(abs(F(w) - r) <= F(1, 10 ** 9) * max(1, r) for w, r in zip(ws, rs))
+        bad.append(("negative-wait", f"waits {waits[:12]}"))
+    sends = sorted(ti + F(w) for ti, w in zip(times, waits))
+    # tolerance: one part in 1e9 of a token
+    w = window_bound(sends, capacity, rate, F(1, 10 ** 9))
+    if w:
+        bad.append(("window-bound", f"{w[0]} requests sent within {float(w[1])}s; capacity {float(capacity)}, rate "
+                    f"{float(rate)}/s"))
+    refs = [reference(tpp, per, init, times, F(tpp), t0), reference(tpp, per, init, times, capacity, t0)]
     if not any(close(waits, r) for r in refs):
-        bad.append(("wait-amount", f"waits {waits}, a token bucket over exact rationals gives {[float(x) for x in refs[0]]}"))
-    return bad, waits
+        i = next(i for i in range(len(waits)) if not any(close(waits[:i + 1], r[:i + 1]) for r in refs))
+        bad.append(("wait-amount", f"request #{i + 1} of {len(waits)}: wait {waits[i]!r}, a token bucket over exact rationals "
+                    f"gives {float(refs[0][i])!r}"))
+    return bad
+
+
+def run_long(sc, tier, res):
+    _, c, g0 = sc
+    tpp, per, init = LONG_CONFIGS[c]
+    n = BOUNDS[tier]["long_requests"]
+    slot_in_periods = 1 / F(tpp)  # one slot = 1 / rate seconds = period / tpp, i.e. 1 / tpp periods
+    for pattern in [(LONG_GAPS[g0],)] + [(LONG_GAPS[g0], g) for g in LONG_GAPS]:
+        gaps = [pattern[i % len(pattern)] * slot_in_periods for i in range(n)]
+        bad, waits = run_case(tpp, per, init, gaps, T0_OFF)
+        res.executions += 1
+        res.transitions += n
+        res.validated += 1
+        key = h64((sc, pattern))
+        res.states.add(key)
+        waited = any(w > 0 for w in waits)
+        if waited:
+            res.nontrivial.add(key)
+        res.outcomes["long:some request waits" if waited else "long:no wait"] += 1
+        case = dict(kind="long", tokens_per_period=tpp, period=per, initial=init, pattern_in_slots=[str(g) for g in pattern],
+                    requests=n)
+        if not res.samples and waited:
+            res.samples.append(case)
+        for clause, detail in bad:
+            res.violation(f"{PROPERTY}:{clause}:long", f"{detail}; {case}", case, size=n)
+
+
+def run_sequences(res, sc, tpp, per, init, first_gaps, alphabet, maxn, t0, label):
+    for g0 in first_gaps:
+        for n in range(1, maxn + 1):
+            for tail in itertools.product(alphabet, repeat=n - 1):
+                gaps = (g0,) + tail
+                bad, waits = run_case(tpp, per, init, gaps, t0)
+                res.executions += 1
+                res.transitions += n
+                res.validated += 1
+                key = h64((sc, gaps))
+                res.states.add(key)
+                waited = any(w > 0 for w in waits)
+                if waited:
+                    res.nontrivial.add(key)
+                res.outcomes[label + ("some request waits" if waited else "no wait")] += 1
+                case = dict(tokens_per_period=tpp, period=per, initial=init, gaps_in_periods=[str(g) for g in gaps], t0=t0)
+                if not res.samples and waited:
+                    res.samples.append(dict(case, waits=waits))
+                for clause, detail in bad:
+                    res.violation(f"{PROPERTY}:{clause}", f"{detail}; {case}", case, size=n)
 
 
 def run_scenario(sc, tier):
     res = Result()
     if sc[0] == "concurrent":
         return run_concurrent(sc, res)
+    if sc[0] == "cancel":
+        run_cancel(sc, tier, res)
+        return res
+    if sc[0] == "long":
+        run_long(sc, tier, res)
+        return res
+    if sc[0] == "offgrid":
+        _, tpp, per, init = sc
+        run_sequences(res, sc, tpp, per, init, OFF_GAPS, OFF_GAPS, BOUNDS[tier]["offgrid_requests"], T0_OFF, "offgrid:")
+        return res
     tpp, per, init, g0 = sc
-    maxn = BOUNDS[tier]["max_requests"]
-    for n in range(1, maxn + 1):
-        for tail in itertools.product(GAPS, repeat=n - 1):
-            gaps = (GAPS[g0],) + tail
-            bad, waits = run_case(tpp, per, init, gaps)
-            res.executions += 1
-            res.transitions += n
-            res.validated += 1
-            key = h64((sc, gaps))
-            res.states.add(key)
-            waited = any(w > 0 for w in waits)
-            if waited:
-                res.nontrivial.add(key)
-            res.outcomes["some request waits" if waited else "no wait"] += 1
-            case = dict(tokens_per_period=tpp, period=per, initial=init, gaps_in_periods=[str(g) for g in gaps])
-            if not res.samples and waited:
-                res.samples.append(dict(case, waits=waits))
-            for clause, detail in bad:
-                res.violation(f"{PROPERTY}:{clause}", f"{detail}; {case}", case, size=n)
+    run_sequences(res, sc, tpp, per, init, (GAPS[g0],), GAPS, BOUNDS[tier]["max_requests"], T0, "")
     return res
 
 
 def replay(rep):
-    if rep.get("kind") == "concurrent":
-        res = Result()
-        run_concurrent(("concurrent", rep["tokens_per_period"], rep["period"], rep["initial"]), res)
-        return [v["message"] for v in res.violations][:5]
+    kind = rep.get("kind")
+    if kind == "concurrent":
+        bad, got = run_concurrent_case(rep.get("caller", "wait"), rep["tokens_per_period"], rep["period"], rep["initial"],
+                                       rep["burst"], rep["second_burst"], F(rep["gap_in_periods"]))
+        print("case:", rep, "send times:", [float(g) for g in got])
+        return [f"{c}: {d}" for c, d in bad]
+    if kind == "cancel":
+        ch = chooser.Chooser(rep["choices"])
+        bad, got, info = run_cancel_once(rep["caller"], rep["tokens_per_period"], rep["period"], rep["initial"], rep["queued"], ch)
+        print("case:", rep)
+        print("  choices:", [(tag, c) for (_, c, tag) in ch.trace], info)
+        print("  send times (s after the burst):", [float(g) for g in got])
+        return [f"{c}: {d}" for c, d in bad]
+    if kind == "long":
+        tpp, per = rep["tokens_per_period"], rep["period"]
+        pattern = [F(g) for g in rep["pattern_in_slots"]]
+        gaps = [pattern[i % len(pattern)] / F(tpp) for i in range(rep["requests"])]
+        bad, waits = run_case(tpp, per, rep["initial"], gaps, T0_OFF)
+        print("case:", rep, "first waits:", waits[:8])
+        return [f"{c}: {d}" for c, d in bad]
     gaps = tuple(F(g) for g in rep["gaps_in_periods"])
-    bad, waits = run_case(rep["tokens_per_period"], rep["period"], rep["initial"], gaps)
+    bad, waits = run_case(rep["tokens_per_period"], rep["period"], rep["initial"], gaps, rep.get("t0", T0))
     print("case:", rep, "waits:", waits)
     return [f"{c}: {d}" for c, d in bad]
